@@ -98,6 +98,28 @@ def steering_probes():
     return st
 
 
+def hermitian_variant(rnd, g, nmax, cplx):
+    """square Hermitian matrix with prescribed |eigenvalues|: indefinite, negative definite or positive definite"""
+    n = rnd.randint(2, nmax)
+    kind = rnd.choice(["indef", "indef", "negdef", "PSD"])
+    mags = np.array(sorted(L.separated(rnd, n, lo=0.35, gap=0.25, grow=1.3), reverse=True))
+    sg = dict(indef=np.array([rnd.choice([-1, 1]) for _ in range(n)]), negdef=-np.ones(n), PSD=np.ones(n))[kind]
+    if kind == "indef" and abs(sg.sum()) == n:
+        sg[0] = -sg[0]
+    Q = L.rand_unitary(g, n, cplx)
+    D = (Q * (mags * sg)) @ Q.conj().T
+    D = (D + D.conj().T) / 2
+    return n, n, mags, (D if cplx else D.real), ("PSD" if kind == "PSD" else "SelfAdjoint")
+
+
+def scale_zone(rnd, f32):
+    """overall scale of the data, biased to the ends (where absolute thresholds such as eps or sqrt(eps) become visible)"""
+    z = rnd.choice(["low", "mid", "high"])
+    if f32:
+        return 10.0 ** dict(low=rnd.uniform(-8, -4), mid=rnd.uniform(-3, 3), high=rnd.uniform(4, 8))[z]
+    return 10.0 ** dict(low=rnd.uniform(-14, -8), mid=rnd.uniform(-6, 6), high=rnd.uniform(8, 14))[z]
+
+
 def gen_matrix(rnd, g, nmax, flat=False):
     shape_cls = rnd.choice(["wide", "square", "tall"])
     a, b = rnd.randint(1, nmax - 1), rnd.randint(2, nmax)
@@ -118,11 +140,14 @@ def gen_matrix(rnd, g, nmax, flat=False):
     return m, n, cplx, np.array(sv), D
 
 
-def wrap(rnd, g, D, dt, plain=False):
+def wrap(rnd, g, D, dt, plain=False, herm=None):
+    import cola
     from cola import ops
-    w = "Dense" if plain else rnd.choice(["Dense", "Dense", "Dense", "Prod2", "Sum2", "Transp"])
+    w = "Dense" if (plain or herm) else rnd.choice(["Dense", "Dense", "Dense", "Prod2", "Sum2", "Transp"])
     D = D.astype(getattr(np, dt))
     m, n = D.shape
+    if herm:       # Hermitian matrix declared SelfAdjoint (indefinite / negative definite) or PSD
+        return "Dense:" + herm, (cola.PSD if herm == "PSD" else cola.SelfAdjoint)(ops.Dense(D))
     if w == "Dense":
         return w, ops.Dense(D)
     if w == "Prod2":
@@ -210,7 +235,20 @@ def run(ctx):
                 kw["max_iters"] = mi
             if cap == "below":
                 k = rnd.randint(1, max(1, r - 1))
-        if r >= 2 and alg != "LOBPCG" and rnd.random() < 0.2:
+        herm = None
+        if rnd.random() < 0.2:
+            m, n, sv, D, herm = hermitian_variant(rnd, g, nmax, cplx)
+            r = n
+            k = min(k, r)
+            if alg == "Lanczos":
+                mi = dict(at=r, above=r + rnd.randint(1, 3), default=None, below=max(1, r - 1))[cap]
+                kw = {} if mi is None else dict(max_iters=mi)
+                if cap == "below":
+                    k = rnd.randint(1, max(1, r - 1))
+            if alg in ("none", "Auto", "DenseSVD") and "svd_dense_k_ignored" in present:
+                k = r
+            bump(hist, "svd:annotated:" + herm)
+        if herm is None and r >= 2 and alg != "LOBPCG" and rnd.random() < 0.2:
             # rank deficient by one: an exactly zero singular value (the factors must still have orthonormal columns)
             Uf, _, Vhf = np.linalg.svd(D, full_matrices=False)
             sv = np.array(list(sv[:-1]) + [0.0])
@@ -228,9 +266,14 @@ def run(ctx):
             if which != "LM" or k > n - 1 or cplx or n < 2 or k > m:
                 bump(skipped, "lobpcg_top_block_only")
                 continue
-        wname, A = wrap(rnd, g, D, dt)
+        scl = 1.0
+        if alg != "LOBPCG" and rnd.random() < 0.4:
+            scl = scale_zone(rnd, f32)
+            D, sv = D * scl, sv * scl
+            bump(hist, "svd:scale:1e%+03d" % (2 * int(np.floor(np.log10(scl) / 2))))
+        wname, A = wrap(rnd, g, D, dt, plain=(scl != 1.0), herm=herm)
         Dd = np.asarray(A.to_dense()).astype(np.complex128)
-        case_js = dict(fn="svd", m=m, n=n, dt=dt, wrap=wname, M=D.tolist() if not cplx else [[str(x) for x in rr] for rr in D], k=k, which=which, alg=alg, kwargs=kw, cap=cap)
+        case_js = dict(fn="svd", m=m, n=n, dt=dt, wrap=wname, scale=scl, M=D.tolist() if not cplx else [[str(x) for x in rr] for rr in D], k=k, which=which, alg=alg, kwargs=kw, cap=cap)
         evals += 1
         bump(hist, f"svd:{alg}" + (f":{cap}" if cap else "") + f":{'wide' if m < n else 'square' if m == n else 'tall'}")
         distinct.add(core.digest(case_js))
